@@ -20,10 +20,10 @@ func init() { register("C19", runC19, evalC19) }
 
 var c19Xfs = []Xf{
 	ident,
-	{Scale: 131072, Tx: 0, Ty: 0},            // 2^17: coordinates up to 2^20
-	{Scale: 1.0 / 1024, Tx: 0, Ty: 0},        // 2^-10
-	{Scale: 0.5, Tx: 1048570, Ty: -1048570},  // near +-2^20
-	{Scale: 0.25, Tx: -0.75, Ty: 0.25},       // dyadic offset across 0
+	{Scale: 131072, Tx: 0, Ty: 0},           // 2^17: coordinates up to 2^20
+	{Scale: 1.0 / 1024, Tx: 0, Ty: 0},       // 2^-10
+	{Scale: 0.5, Tx: 1048570, Ty: -1048570}, // near +-2^20
+	{Scale: 0.25, Tx: -0.75, Ty: 0.25},      // dyadic offset across 0
 }
 
 func segG(a, b geometry.Point) *rt.G {
